@@ -25,20 +25,22 @@ const gateWait = 3 * time.Second
 const gateHold = 20 * time.Second
 
 type conn8 struct {
-	n      int
-	conn   *cl.Conn
-	t      *cl.Transport
-	id     string
-	ch     string
-	mu     sync.Mutex
-	log    []string
-	gOC    *cl.Gate
-	gSS    *cl.Gate
-	gCN    *cl.Gate
-	gTC    *cl.Gate
-	gAL    *cl.Gate // the current tick's gate
-	reader chan struct{}
-	closer chan struct{}
+	n           int
+	conn        *cl.Conn
+	t           *cl.Transport
+	id          string
+	ch          string
+	mu          sync.Mutex
+	log         []string
+	gOC         *cl.Gate
+	gSS         *cl.Gate
+	gCN         *cl.Gate
+	gTC         *cl.Gate
+	gAL         *cl.Gate // the current tick's gate
+	reader      chan struct{}
+	closer      chan struct{}
+	aliveActive int
+	overlap     bool
 }
 
 func (c *conn8) logCB(k string) {
@@ -124,10 +126,16 @@ func newRun8(ss bool, bi int) (*run8, error) {
 			return
 		}
 		cc.OnAlive(func() {
-			c.logCB("alive")
+			c.mu.Lock()
+			c.log = append(c.log, "alive")
+			c.aliveActive++
+			c.mu.Unlock()
 			if g := c.alGate(); g != nil {
 				g.Arrive(gateHold)
 			}
+			c.mu.Lock()
+			c.aliveActive--
+			c.mu.Unlock()
 		})
 		c.gCN.Arrive(gateHold)
 	}
@@ -135,7 +143,12 @@ func newRun8(ss bool, bi int) (*run8, error) {
 		if c := r.byid(ev.Client); c != nil {
 			switch ev.Kind {
 			case "connecting", "connect", "subscribe", "unsubscribe", "disconnect":
-				c.logCB(ev.Kind)
+				c.mu.Lock()
+				c.log = append(c.log, ev.Kind)
+				if ev.Kind == "disconnect" && c.aliveActive > 0 {
+					c.overlap = true
+				}
+				c.mu.Unlock()
 			}
 		}
 	}
@@ -413,6 +426,16 @@ func (r *run8) run(bi int, beh []map[string]any, ss, pushes bool, res *vh.Result
 				ended = true
 				break
 			}
+			if at == "done" && mrd() != "done" && (shutBegun || shutDone) {
+				// a witness schedule of the unguarded model: the code under test refuses the connection instead
+				c.gTC.Release()
+				c.t.WaitFor(gateWait, func(_ []*protocol.Reply, closed bool) bool { return closed })
+				if closed, d := c.t.Closed(); closed && d.Code == 3001 {
+					res.Count("refused_on_shutdown", 1)
+					ended = true
+					break
+				}
+			}
 			if at != mrd() {
 				drift("C08", fmt.Sprintf("after %s the reader of connection %d is at %q, the model says %q", act, cn, at, mrd()))
 			}
@@ -426,6 +449,9 @@ func (r *run8) run(bi int, beh []map[string]any, ss, pushes bool, res *vh.Result
 			id := c.conn.NextID() + 10
 			c.conn.Do(&protocol.Command{Id: id, Subscribe: &protocol.SubscribeRequest{Channel: c.ch}})
 			c.conn.WaitReply(id, gateWait)
+		case "DupConnect":
+			c.conn.Do(&protocol.Command{Id: 99, Connect: &protocol.ConnectRequest{}})
+			nontrivial = true
 		case "Unsubscribe":
 			ch := c.ch
 			if ss && cn == 1 {
@@ -446,7 +472,17 @@ func (r *run8) run(bi int, beh []map[string]any, ss, pushes bool, res *vh.Result
 				drift("C08", fmt.Sprintf("expected one armed timer for connection %d, found %d", cn, n))
 				continue
 			}
-			if !g.WaitArrived(gateWait) {
+			arrived := false
+			for try := 0; try < 6 && !arrived; try++ {
+				if arrived = g.WaitArrived(150 * time.Millisecond); arrived {
+					break
+				}
+				// a tick that finds the previous tick's goroutine still finishing only re-arms: fire again
+				if _, _, ok := r.sch.fire(c.id); !ok {
+					break
+				}
+			}
+			if !arrived && !g.WaitArrived(gateWait) {
 				drift("C08", "the presence tick did not reach the OnAlive handler")
 			}
 			nontrivial = true
@@ -464,6 +500,15 @@ func (r *run8) run(bi int, beh []map[string]any, ss, pushes bool, res *vh.Result
 		case "CloseStart":
 			if mcl() == "tc" && vh.Int(tlaSeq(st["who"], cn)) == vh.Int(step["code"]) && vh.Str(tlaSeq(beh[si-1]["cl"], cn)) == "none" {
 				if !c.gTC.WaitArrived(gateWait) {
+					if vh.Int(step["code"]) == 3001 {
+						// Node.Shutdown did not start closing a connection that was registered when it began
+						releaseAll()
+						returned := waitDone(r.shut, gateWait)
+						if closed, _ := c.t.Closed(); !closed {
+							violate("C08", "still-connected-after-shutdown", fmt.Sprintf("connection %d was connected when Node.Shutdown began; Shutdown returned=%v and the connection is still open (Hub().NumClients() = %d)", cn, returned, r.env.Node.Hub().NumClients()))
+							continue
+						}
+					}
 					drift("C08", fmt.Sprintf("close(%d) of connection %d did not reach Transport.Close", vh.Int(step["code"]), cn))
 				}
 				nontrivial = true
@@ -551,7 +596,22 @@ func (r *run8) run(bi int, beh []map[string]any, ss, pushes bool, res *vh.Result
 			for _, v := range monitors8(k, established(fr, ss && cc.n == 1), vh.Str(tlaSeq(st["cl"], cc.n)) == "done") {
 				violate("C08", v.sig, fmt.Sprintf("connection %d: %s", cc.n, v.what))
 			}
+			cc.mu.Lock()
+			ov := cc.overlap
+			cc.mu.Unlock()
+			if ov {
+				violate("C08", "alive-overlaps-disconnect", fmt.Sprintf("connection %d: the disconnect callback ran while the alive callback was still running: %v", cc.n, k))
+			}
 			if shutDone {
+				hasConnect, hasDisc := false, false
+				for _, e := range k {
+					hasConnect = hasConnect || e == "connect"
+					hasDisc = hasDisc || e == "disconnect"
+				}
+				mclose := vh.Str(tlaSeq(st["cl"], cc.n))
+				if closed, _ := cc.t.Closed(); hasConnect && !hasDisc && !closed && mclose != "tc" && mclose != "pm" && len(vh.List(tlaSeq(st["spawned"], cc.n))) == 0 {
+					violate("C08", "connected-after-shutdown:during", fmt.Sprintf("connection %d is connected (connect callback ran, transport open, no close under way) although Node.Shutdown has returned; Hub().NumClients() = %d", cc.n, r.env.Node.Hub().NumClients()))
+				}
 				for i := cbAtDone[cc.n]; i < len(k); i++ {
 					if k[i] == "connect" {
 						violate("C08", "connected-after-shutdown:after", fmt.Sprintf("connection %d: connect callback after Node.Shutdown returned: %v", cc.n, k))
@@ -565,6 +625,22 @@ func (r *run8) run(bi int, beh []map[string]any, ss, pushes bool, res *vh.Result
 				if f.T == "connect" && i > 0 {
 					violate("C11", "reply-not-first", fmt.Sprintf("connection %d: the connect reply is frame %d: %v", cc.n, i+1, fr))
 				}
+			}
+		}
+		if shutDone && completed == 1 {
+			pending := false
+			for _, x := range vh.List(st["spawned"]) {
+				if len(vh.List(x)) > 0 {
+					pending = true
+				}
+			}
+			for _, x := range vh.List(st["cl"]) {
+				if s := vh.Str(x); s == "tc" || s == "pm" {
+					pending = true
+				}
+			}
+			if n := r.env.Node.Hub().NumClients(); n > 0 && !pending {
+				violate("C08", "registered-after-shutdown", fmt.Sprintf("Node.Shutdown returned, every close() has run and %d connection(s) are still registered in the hub", n))
 			}
 		}
 		if completed == 0 {
@@ -588,6 +664,25 @@ func (r *run8) run(bi int, beh []map[string]any, ss, pushes bool, res *vh.Result
 			if fr := cc.frames(); vh.J(fr) != vh.J(mo) && !(len(fr) == 0 && len(mo) == 0) {
 				drift("C08", fmt.Sprintf("frames of connection %d differ after %s: real %s, model %s", cc.n, vh.J(step), vh.J(fr), vh.J(mo)))
 				break
+			}
+		}
+	}
+	if completed == 1 && !ended {
+		// timers a closed connection left armed: a real scheduler fires them; nothing of the connection's life
+		// may follow its disconnect callback
+		for _, cc := range allConns() {
+			if closed, _ := cc.t.Closed(); !closed {
+				continue
+			}
+			for _, tm := range r.sch.active(cc.id) {
+				r.sch.mu.Lock()
+				tm.fired = true
+				r.sch.mu.Unlock()
+				tm.cb()
+			}
+			time.Sleep(2 * time.Millisecond)
+			for _, v := range monitors8(cc.cbLog(), 1<<30, false) {
+				violate("C08", v.sig+":leftover-timer", fmt.Sprintf("connection %d, after firing a timer it left armed when it closed: %s", cc.n, v.what))
 			}
 		}
 	}
